@@ -141,9 +141,10 @@ func (p *HTTPProxy) ServeHTTP(w http.ResponseWriter, r *http.Request) {
 
 	// build the real target url that is passed to the proxy
 	targetURL := &url.URL{
-		Scheme: t.URL.Scheme,
-		Host:   t.URL.Host,
-		Path:   r.URL.Path,
+		Scheme:  t.URL.Scheme,
+		Host:    t.URL.Host,
+		Path:    r.URL.Path,
+		RawPath: r.URL.RawPath,
 	}
 	if t.URL.RawQuery == "" || r.URL.RawQuery == "" {
 		targetURL.RawQuery = t.URL.RawQuery + r.URL.RawQuery
@@ -161,21 +162,38 @@ func (p *HTTPProxy) ServeHTTP(w http.ResponseWriter, r *http.Request) {
 	// TODO(fs): have found the target based on the prefix but there may be other
 	// TODO(fs): matchers which may have different rules. I'll keep this for
 	// TODO(fs): a defensive approach.
+	// RawPath carries the percent-encoding the client used (e.g. %2F). It has
+	// to be rewritten together with Path since net/url ignores a RawPath which
+	// is not an encoding of Path and the encoded characters would get decoded.
 	if t.StripPath != "" && strings.HasPrefix(r.URL.Path, t.StripPath) {
 		targetURL.Path = targetURL.Path[len(t.StripPath):]
+		if strings.HasPrefix(targetURL.RawPath, t.StripPath) {
+			targetURL.RawPath = targetURL.RawPath[len(t.StripPath):]
+		} else {
+			targetURL.RawPath = ""
+		}
 		// ensure absolute path after stripping to maintain compliance with
 		// section 5.3 of RFC7230 (https://tools.ietf.org/html/rfc7230#section-5.3)
 		if !strings.HasPrefix(targetURL.Path, "/") {
 			targetURL.Path = "/" + targetURL.Path
 		}
+		if targetURL.RawPath != "" && !strings.HasPrefix(targetURL.RawPath, "/") {
+			targetURL.RawPath = "/" + targetURL.RawPath
+		}
 	}
 
 	if t.PrependPath != "" {
 		targetURL.Path = t.PrependPath + targetURL.Path
+		if targetURL.RawPath != "" {
+			targetURL.RawPath = t.PrependPath + targetURL.RawPath
+		}
 		// ensure absolute path after stripping to maintain compliance with
 		// section 5.3 of RFC7230 (https://tools.ietf.org/html/rfc7230#section-5.3)
 		if !strings.HasPrefix(targetURL.Path, "/") {
 			targetURL.Path = "/" + targetURL.Path
+		}
+		if targetURL.RawPath != "" && !strings.HasPrefix(targetURL.RawPath, "/") {
+			targetURL.RawPath = "/" + targetURL.RawPath
 		}
 	}
 
